@@ -31,8 +31,10 @@ func init() {
 
 // ---------------------------------------------------------------------------
 // case tree -> TestSuite proto
-//   test    := (name stype reqheaders (request ...))
-//   request := (data def?)            def? := () | (def)
+//   test    := (name stype reqheaders (request ...)) | (name stype reqheaders (request ...) get)
+//              get != 0: a Connect GET case (use_get_http_method; a unary one calls IdempotentUnary, message kind 0 is
+//              then IdempotentUnaryRequest); GET cases go into a suite of their own that relies_on_connect_get
+//   request := (kind full data def?)  def? := () | (def)
 //   def     := (headers trailers (data ...) err?)   err? := () | (err)
 //   err     := (code msg? (detail ...))   msg? := () | (bytes)   detail := (kind bytes)
 //   headers := ((name (value ...)) ...)
@@ -72,7 +74,7 @@ func c02Error(v vsx) *conformancev1.Error {
 	return e
 }
 
-func c02Request(v vsx) *anypb.Any {
+func c02Request(v vsx, get bool) *anypb.Any {
 	kind, fullDuplex, data := v.l[0].i, v.l[1].i != 0, v.l[2].b
 	var defv *vsx
 	if len(v.l[3].l) > 0 {
@@ -113,7 +115,11 @@ func c02Request(v vsx) *anypb.Any {
 	}
 	switch kind {
 	case 0:
-		msg = &conformancev1.UnaryRequest{RequestData: data, ResponseDefinition: unaryDef()}
+		if get {
+			msg = &conformancev1.IdempotentUnaryRequest{RequestData: data, ResponseDefinition: unaryDef()}
+		} else {
+			msg = &conformancev1.UnaryRequest{RequestData: data, ResponseDefinition: unaryDef()}
+		}
 	case 1:
 		msg = &conformancev1.ClientStreamRequest{RequestData: data, ResponseDefinition: unaryDef()}
 	case 2:
@@ -134,21 +140,59 @@ func c02Request(v vsx) *anypb.Any {
 	return a
 }
 
-func c02Suite(tests vsx) *conformancev1.TestSuite {
+func c02IsGet(t vsx) bool { return len(t.l) > 4 && t.l[4].i != 0 }
+
+// the suites "V" (ordinary cases) and "G" (Connect GET cases: relies_on_connect_get, hence Connect only; identity
+// only, as in the shipped connect_with_get.yaml: the reference client never compresses a GET request of this
+// size); a suite without test cases is nil
+func c02Suites(tests vsx) (*conformancev1.TestSuite, *conformancev1.TestSuite) {
 	suite := &conformancev1.TestSuite{Name: "V"}
+	getSuite := &conformancev1.TestSuite{
+		Name:                 "G",
+		ReliesOnConnectGet:   true,
+		RelevantProtocols:    []conformancev1.Protocol{conformancev1.Protocol_PROTOCOL_CONNECT},
+		RelevantCompressions: []conformancev1.Compression{conformancev1.Compression_COMPRESSION_IDENTITY},
+	}
 	for _, t := range tests.l {
 		stype := t.l[1].i
+		get := c02IsGet(t)
 		tc := &conformancev1.TestCase{Request: &conformancev1.ClientCompatRequest{
-			TestName:       t.l[0].str(),
-			StreamType:     conformancev1.StreamType(stype),
-			RequestHeaders: c02Headers(t.l[2]),
+			TestName:         t.l[0].str(),
+			StreamType:       conformancev1.StreamType(stype),
+			RequestHeaders:   c02Headers(t.l[2]),
+			UseGetHttpMethod: get,
 		}}
-		for _, r := range t.l[3].l {
-			tc.Request.RequestMessages = append(tc.Request.RequestMessages, c02Request(r))
+		if get && stype == 1 {
+			tc.Request.Service = proto.String("connectrpc.conformance.v1.ConformanceService")
+			tc.Request.Method = proto.String("IdempotentUnary")
 		}
-		suite.TestCases = append(suite.TestCases, tc)
+		for _, r := range t.l[3].l {
+			tc.Request.RequestMessages = append(tc.Request.RequestMessages, c02Request(r, get))
+		}
+		if get {
+			getSuite.TestCases = append(getSuite.TestCases, tc)
+		} else {
+			suite.TestCases = append(suite.TestCases, tc)
+		}
 	}
-	return suite
+	if len(suite.TestCases) == 0 {
+		suite = nil
+	}
+	if len(getSuite.TestCases) == 0 {
+		getSuite = nil
+	}
+	return suite, getSuite
+}
+
+// all test cases as generated (both suites)
+func c02AllCases(suites ...*conformancev1.TestSuite) []*conformancev1.TestCase {
+	var out []*conformancev1.TestCase
+	for _, s := range suites {
+		if s != nil {
+			out = append(out, s.TestCases...)
+		}
+	}
+	return out
 }
 
 // ---------------------------------------------------------------------------
@@ -197,6 +241,8 @@ func c02Names(lists ...[]*conformancev1.Header) map[string]bool {
 	return m
 }
 
+var c02QueryNames = map[string]bool{"encoding": true, "connect": true, "compression": true}
+
 type c02Proj struct {
 	reqNames map[string]bool
 	rspNames map[string]bool
@@ -211,6 +257,8 @@ func c02ReqAny(a *anypb.Any) vsx {
 	switch m := m.(type) {
 	case *conformancev1.UnaryRequest:
 		return vL(vI(0), vB(m.RequestData))
+	case *conformancev1.IdempotentUnaryRequest:
+		return vL(vI(0), vB(m.RequestData)) // the unary request message of the method called
 	case *conformancev1.ClientStreamRequest:
 		return vL(vI(1), vB(m.RequestData))
 	case *conformancev1.ServerStreamRequest:
@@ -231,7 +279,9 @@ func (p *c02Proj) reqInfo(ri *conformancev1.ConformancePayload_RequestInfo) vsx 
 	if ri != nil && ri.TimeoutMs != nil {
 		tmo = vL(vI(*ri.TimeoutMs))
 	}
-	return vL(c02Project(ri.GetRequestHeaders(), p.reqNames), vL(idx...), tmo)
+	// of the query parameters only encoding, connect and compression ("message" and "base64" depend on the encoder)
+	return vL(c02Project(ri.GetRequestHeaders(), p.reqNames), vL(idx...), tmo,
+		c02Project(ri.GetConnectGetInfo().GetQueryParams(), c02QueryNames))
 }
 
 func (p *c02Proj) errv(e *conformancev1.Error) vsx {
@@ -303,20 +353,27 @@ func c02ProjFor(tc *conformancev1.TestCase, orig *conformancev1.TestCase) *c02Pr
 // library construction through the real loader
 // ---------------------------------------------------------------------------
 
-func c02Library(tests vsx, cfgv vsx) (*testCaseLibrary, *conformancev1.TestSuite, []configCase, error) {
-	suite := c02Suite(tests)
-	data, err := protojson.Marshal(suite)
-	if err != nil {
-		panic(err)
+func c02Library(tests vsx, cfgv vsx) (*testCaseLibrary, []*conformancev1.TestCase, []configCase, error) {
+	suite, getSuite := c02Suites(tests)
+	all := c02AllCases(suite, getSuite)
+	files := map[string][]byte{}
+	for name, s := range map[string]*conformancev1.TestSuite{"verif.yaml": suite, "verif_get.yaml": getSuite} {
+		if s == nil {
+			continue
+		}
+		data, err := protojson.Marshal(s)
+		if err != nil {
+			panic(err)
+		}
+		files[name] = bytes.ReplaceAll(data, []byte("connectrpc.conformance.v1.ConformancePayload\""), []byte("verif.NoSuchMessage\""))
 	}
-	data = bytes.ReplaceAll(data, []byte("connectrpc.conformance.v1.ConformancePayload\""), []byte("verif.NoSuchMessage\""))
-	suites, err := parseTestSuites(map[string][]byte{"verif.yaml": data})
+	suites, err := parseTestSuites(files)
 	if err != nil {
-		return nil, suite, nil, err
+		return nil, all, nil, err
 	}
 	var cfgs []configCase
 	stypes := map[conformancev1.StreamType]bool{}
-	for _, tc := range suite.TestCases {
+	for _, tc := range all {
 		stypes[tc.Request.StreamType] = true
 	}
 	for _, c := range cfgv.l {
@@ -327,38 +384,57 @@ func c02Library(tests vsx, cfgv vsx) (*testCaseLibrary, *conformancev1.TestSuite
 			if c.l[1].i == 2 && c.l[0].i != 2 {
 				continue // gRPC needs HTTP/2
 			}
-			cfgs = append(cfgs, configCase{
+			cc := configCase{
 				Version:     conformancev1.HTTPVersion(c.l[0].i),
 				Protocol:    conformancev1.Protocol(c.l[1].i),
 				Codec:       conformancev1.Codec(c.l[2].i),
 				Compression: conformancev1.Compression(c.l[3].i),
 				UseTLS:      c.l[4].i != 0,
 				StreamType:  st,
-			})
+			}
+			cfgs = append(cfgs, cc)
+			if cc.Protocol == conformancev1.Protocol_PROTOCOL_CONNECT {
+				// the same config case with Connect GET support (config.go computes both for a peer that supports
+				// it): the one the suite that relies_on_connect_get is expanded under
+				cc.UseConnectGET = true
+				cfgs = append(cfgs, cc)
+			}
 		}
 	}
 	lib, err := newTestCaseLibrary(suites, cfgs, conformancev1.TestSuite_TEST_MODE_UNSPECIFIED)
-	return lib, suite, cfgs, err
+	return lib, all, cfgs, err
 }
 
-// (tests) -> per test (name expected) through parseTestSuites + newTestCaseLibrary with one config case
+// (tests) -> per permutation (suite/name codec expected), sorted by suite/name then codec, through parseTestSuites +
+// newTestCaseLibrary with two config cases that differ in the codec (the expectation of a permutation may depend on it)
 func verifC02Expect(args []vsx) vsx {
-	cfg := vL(vL(vI(2), vI(1), vI(1), vI(1), vI(0))) // h2c: the only plain-text version that carries all five stream types
-	lib, suite, _, err := c02Library(args[0], cfg)
+	// h2c: the only plain-text version that carries all five stream types; Connect, identity; proto and json
+	cfg := vL(vL(vI(2), vI(1), vI(1), vI(1), vI(0)), vL(vI(2), vI(1), vI(2), vI(1), vI(0)))
+	lib, all, _, err := c02Library(args[0], cfg)
 	if err != nil {
 		return vErr("load")
 	}
-	orig := c02Orig(suite)
-	var names []string
-	for n := range lib.testCases {
-		names = append(names, n)
+	orig := c02Orig(all)
+	type perm struct {
+		key   string
+		codec int64
+		tc    *conformancev1.TestCase
 	}
-	sort.Strings(names)
+	var perms []perm
+	for n, tc := range lib.testCases {
+		suiteName, _, _ := strings.Cut(n, "/")
+		perms = append(perms, perm{key: suiteName + "/" + lib.testCaseNames[n], codec: int64(tc.Request.Codec), tc: tc})
+	}
+	sort.Slice(perms, func(i, j int) bool {
+		if perms[i].key != perms[j].key {
+			return perms[i].key < perms[j].key
+		}
+		return perms[i].codec < perms[j].codec
+	})
 	var out []vsx
-	for _, n := range names {
-		tc := lib.testCases[n]
-		o := orig[c02Key(lib.testCaseNames[n], tc.Request.StreamType)]
-		out = append(out, vL(vS(lib.testCaseNames[n]), c02ProjFor(tc, o).result(tc.ExpectedResponse, false)))
+	for _, p := range perms {
+		o := orig[c02Key(lib.testCaseNames[p.tc.Request.TestName], p.tc.Request.StreamType, p.tc.Request.UseGetHttpMethod)]
+		out = append(out, vL(vS(p.key), vI(p.codec), c02ProjFor(p.tc, o).result(p.tc.ExpectedResponse, false)))
 	}
 	return vL(out...)
 }
@@ -423,14 +499,14 @@ var (
 //   per permutation, sorted by full name: (fullname expected verdict feedback actual)
 func verifC02Live(args []vsx) vsx {
 	grpcClient, grpcServer := args[0].l[0].i != 0, args[0].l[1].i != 0
-	lib, suite, _, err := c02Library(args[2], args[1])
+	lib, all, _, err := c02Library(args[2], args[1])
 	if err != nil {
 		if strings.Contains(err.Error(), "no test cases apply") {
 			return vL()
 		}
 		return vErr("load")
 	}
-	orig := c02Orig(suite)
+	orig := c02Orig(all)
 	// no deadline on this context: the in-process reference client would propagate it as an RPC timeout
 	ctx, cancel := context.WithCancel(context.Background())
 	defer cancel()
@@ -495,8 +571,8 @@ func verifC02Live(args []vsx) vsx {
 		cfgIndex[fmt.Sprintf("%d.%d.%d.%d.%v", c.l[0].i, c.l[1].i, c.l[2].i, c.l[3].i, c.l[4].i != 0)] = i
 	}
 	testIndex := map[string]int{}
-	for i, tc := range suite.TestCases {
-		testIndex[tc.Request.TestName] = i
+	for i, t := range args[2].l { // the order of the case file (names are distinct within a batch)
+		testIndex[t.l[0].str()] = i
 	}
 	baseOf := func(name string) string {
 		base := lib.testCaseNames[name]
@@ -530,7 +606,7 @@ func verifC02Live(args []vsx) vsx {
 	out := make([]vsx, 0, len(perms))
 	for _, p := range perms {
 		base := baseOf(p.name)
-		o := orig[c02Key(base, p.tc.Request.StreamType)]
+		o := orig[c02Key(base, p.tc.Request.StreamType, p.tc.Request.UseGetHttpMethod)]
 		proj := c02ProjFor(p.tc, o)
 		verdict := vS("pass")
 		if oc, ok := results.outcomes[p.name]; !ok {
@@ -565,13 +641,15 @@ func verifC02Live(args []vsx) vsx {
 	return vL(out...)
 }
 
-func c02Key(name string, st conformancev1.StreamType) string { return fmt.Sprintf("%d/%s", st, name) }
+func c02Key(name string, st conformancev1.StreamType, get bool) string {
+	return fmt.Sprintf("%d/%v/%s", st, get, name)
+}
 
-// the definitions as generated, by (stream type, name); the first one wins, as in the model
-func c02Orig(suite *conformancev1.TestSuite) map[string]*conformancev1.TestCase {
+// the definitions as generated, by (stream type, suite, name); the first one wins, as in the model
+func c02Orig(all []*conformancev1.TestCase) map[string]*conformancev1.TestCase {
 	orig := map[string]*conformancev1.TestCase{}
-	for _, tc := range suite.TestCases {
-		k := c02Key(tc.Request.TestName, tc.Request.StreamType)
+	for _, tc := range all {
+		k := c02Key(tc.Request.TestName, tc.Request.StreamType, tc.Request.UseGetHttpMethod)
 		if _, ok := orig[k]; !ok {
 			orig[k] = tc
 		}
